@@ -149,6 +149,8 @@ class Registry:
             self.kinds[name] = k
             for py, cname in k.consts.items():
                 self.globals_[cname] = k.const(cname)
+        else:
+            self.kinds[name].attrs.update(kw.get('attrs') or {})
         return self.kinds[name]
 
     def induction(self, name, params, hyps, concl, base, step, props=()):
